@@ -97,6 +97,17 @@ def subspaces(tier):
                 for al in (None, 2, 3):
                     yield {'fmt': 'AVR', 'recs': [[0x3b, st, nw]], 'entry': None, 'opts': [['-avrlen', str(al)]] if al else []}
     subs.append(('word-granular-intel-m-and-atmel', wordgran()))
+
+    def quad():
+        # 4 bytes per address (TMS320C3x): the automatic address range is computed in address units from byte lengths
+        for f in ('Intel', 'Intel16', 'Intel32'):
+            for o in ([], [['-r', '0x-0x']], [['-r', 'WIN']], [['-l', '4']], [['-l', '32']]):
+                for st in (0, 0x40, 0x100, 0x3f0):
+                    for nw in (1, 2, 3, 5, 11, 16, 17):
+                        yield {'fmt': f, 'recs': [[0x76, st, nw]], 'entry': None, 'opts': o}
+                for (s1, n1), (s2, n2) in (((0x100, 11), (0x40, 3)), ((0x40, 3), (0x100, 11)), ((0x10, 1), (0x11, 7)), ((0x200, 16), (0x20, 16))):
+                    yield {'fmt': f, 'recs': [[0x76, s1, n1], [0x76, s2, n2]], 'entry': None, 'opts': o}
+    subs.append(('four-byte-granular-intel', quad()))
     return subs
 
 
@@ -111,7 +122,7 @@ def evaluate(case):
     fmt = case['fmt']
     recs = []
     for i, (cpu, st, ln) in enumerate(case['recs']):
-        g = 2 if cpu in (0x70, 0x3b) else 1
+        g = 2 if cpu in (0x70, 0x3b) else 4 if cpu == 0x76 else 1
         recs.append(dict(kind='data', cpu=cpu, seg=1, gran=g, start=st, data=payload(ln * g, i * 31), short=True))
     wr = list(recs)
     if case['entry'] is not None:
@@ -197,11 +208,12 @@ def evaluate(case):
                 want[a & ((1 << (8 * o_avr)) - 1)] = r['data'][2 * w] | (r['data'][2 * w + 1] << 8)
     else:
         for r in recs:
+            g = r['gran']        # > 1 only in the four-byte-granular subspace (Intel formats: byte address = address * granularity)
             for i, x in enumerate(r['data']):
-                a0 = r['start'] + i
+                a0 = r['start'] + i // g
                 if not (win[0] <= a0 <= win[1]):
                     continue
-                a = a0 + off
+                a = (a0 + off) * g + i % g
                 if a > MAXA[eff] or a < 0:
                     over = True
                 want[a] = x
